@@ -43,13 +43,29 @@ def gen_case(seed: int, idx: int) -> dict:
             base = dict(_fixtures()[rng.randrange(len(_fixtures()))])
         else:
             base = gen.gen_project(rng, reports="mixed")
+        mrng = rng_for(PROP, seed, f"macro-{idx}")  # (own stream: the cases generated before this knob existed are unchanged)
+        if mrng.random() < 0.25 and base.get("kind") == "gen":
+            base["text"] = gen.add_macros(mrng, base["text"])
         text, edits = gen.corrupt(rng, base["text"])
+        if mrng.random() < 0.3 and "macro " in base["text"]:
+            # a lost closing bracket of a macro body (its own line or the character)
+            import re as _re
+
+            cand = [m.start() for m in _re.finditer(r"\]", text)]
+            if cand:
+                k = cand[mrng.randrange(len(cand))]
+                text = text[:k] + ("}" if mrng.random() < 0.3 else "") + text[k + 1 :]
+                edits.append(["bracket", k])
         return {"text": text, "cls": "corrupt", "edits": edits, "base_kind": base.get("kind")}
     if r < 0.75:
         d = gen.gen_infeasible(rng)
         return {"text": d["text"], "cls": "infeasible", "tags": d["tags"]}
     if r < 0.88:
         d = gen.gen_project(rng, reports="mixed")
+        mrng = rng_for(PROP, seed, f"macro-{idx}")
+        if mrng.random() < 0.2:
+            d["text"] = gen.add_macros(mrng, d["text"])
+            d["tags"] = list(d["tags"]) + ["macros"]
         return {"text": d["text"], "cls": "valid", "tags": d["tags"]}
     d = gen.gen_infeasible(rng)
     text, edits = gen.corrupt(rng, d["text"])
@@ -68,39 +84,109 @@ def project_without_end(text: str) -> bool:
     return bool(m) and m.group(3) != "+"
 
 
-def unbalanced_braces(text: str) -> bool:
-    """True if '{' and '}' outside strings and comments do not balance.  Texts with macros or rich-text blocks
-    are not judged (a macro body may legitimately carry a lone brace)."""
-    if "macro" in text or "-8<-" in text or "${" in text:
-        return False
-    depth = 0
+_MACRO_DEF = None
+
+
+def strip_macro_definitions(text: str) -> tuple[str, bool]:
+    """The documented macro syntax, `macro name [ body ]` with nested brackets, applied as the first pass over the raw
+    text: terminated definitions are removed, an unterminated one stays where it is.  Returns (remainder, judgeable);
+    judgeable is False if some body could change the lexical structure of the text it is expanded into (odd number
+    of quotes, unbalanced braces, comment or rich-text openers)."""
+    global _MACRO_DEF
+    import re
+
+    if _MACRO_DEF is None:
+        _MACRO_DEF = re.compile(r"macro\s+\w+\s*\[")
+    out = []
     i, n = 0, len(text)
+    judgeable = True
+    while True:
+        m = _MACRO_DEF.search(text, i)
+        if not m:
+            out.append(text[i:])
+            break
+        j = m.end()
+        c = 1
+        while j < n and c > 0:
+            if text[j] == "[":
+                c += 1
+            elif text[j] == "]":
+                c -= 1
+            j += 1
+        if c == 0:
+            body = text[m.end() : j - 1]
+            if body.count('"') % 2 or body.count("'") % 2 or body.count("{") != body.count("}") or "/*" in body or "-8<-" in body or "->8-" in body:
+                judgeable = False
+            out.append(text[i : m.start()])
+            i = j
+        else:
+            out.append(text[i : m.start() + 1])
+            i = m.start() + 1
+    return "".join(out), judgeable
+
+
+def lexical_verdict(text: str) -> str | None:
+    """Why a text cannot be a project, judged on its lexical structure alone by a scanner independent of the code
+    under test - or None.  Every block of the grammar is brace-delimited, brackets occur only as macro-body
+    delimiters, strings / block comments / rich-text blocks must be closed.  A text cut inside any of these
+    constructs (torn write), or one that lost a delimiter, is not a project."""
+    rest, judgeable = strip_macro_definitions(text)
+    if not judgeable:
+        return None
+    depth = 0
+    i, n = 0, len(rest)
     while i < n:
-        ch = text[i]
+        ch = rest[i]
         if ch in "\"'":
-            j = text.find(ch, i + 1)
+            j = rest.find(ch, i + 1)
             if j < 0:
-                return False  # unterminated string: the lexer's business, not judged here
+                return "unterminated-string"
             i = j + 1
             continue
-        if ch == "#" or text.startswith("//", i):
-            j = text.find("\n", i)
+        if ch == "#" or rest.startswith("//", i):
+            j = rest.find("\n", i)
             i = n if j < 0 else j + 1
             continue
-        if text.startswith("/*", i):
-            j = text.find("*/", i + 2)
+        if rest.startswith("/*", i):
+            j = rest.find("*/", i + 2)
             if j < 0:
-                return False
+                return "unterminated-comment"
             i = j + 2
+            continue
+        if rest.startswith("-8<-", i):
+            j = rest.find("->8-", i + 4)
+            if j < 0:
+                return "unterminated-rich-text"
+            i = j + 4
+            continue
+        if rest.startswith("${", i) or rest.startswith("%{", i):
+            # a macro / query reference: opaque up to its closing brace (nested braces counted, as the expander does)
+            j = i + 2
+            c = 1
+            while j < n and c > 0:
+                if rest[j] == "{":
+                    c += 1
+                elif rest[j] == "}":
+                    c -= 1
+                j += 1
+            if c:
+                return None  # unterminated reference: what follows is not judged
+            i = j
             continue
         if ch == "{":
             depth += 1
         elif ch == "}":
             depth -= 1
             if depth < 0:
-                return True
+                return "unbalanced-braces"
+        elif ch in "[]":
+            return "stray-bracket"
         i += 1
-    return depth != 0
+    return "unbalanced-braces" if depth else None
+
+
+def unbalanced_braces(text: str) -> bool:
+    return lexical_verdict(text) == "unbalanced-braces"
 
 
 def oracles(case: dict, r: dict, B: dict) -> list[dict]:
@@ -127,8 +213,9 @@ def oracles(case: dict, r: dict, B: dict) -> list[dict]:
             V.append(_v("bounded", "parse-rejected", f"rejecting a {r['len']}-char text took {r['steps_parse']} steps > {lim}"))
         return V
     # accepted
-    if unbalanced_braces(case.get("text", "")):
-        V.append(_v("rejection", "accepted-with-unbalanced-braces", "parse() accepted a text whose braces do not balance (every block of the grammar is brace-delimited, so the text is not a project; e.g. a file truncated inside a block)"))
+    lv = lexical_verdict(case.get("text", ""))
+    if lv:
+        V.append(_v("rejection", f"accepted-with-{lv}", f"parse() accepted a text that is lexically not a project ({lv}): every block of the grammar is brace-delimited, brackets only delimit macro bodies, strings / comments / rich-text blocks must be closed; e.g. a file truncated inside such a construct, or one that lost a delimiter - part of the text was silently dropped"))
     m = r["m_before"]
     # building the model deep-copies inherited attribute values (limits, scenario overrides) whose object graph
     # reaches the whole project: cost ~ text size x number of properties x scenarios.  In practice the absolute
